@@ -78,6 +78,7 @@ package ice
 //@   site call SetWriteDeadline#1 assert arms-the-shared-sockets-deadline: recv == m.params.UDPConn
 //@   site call clearWriteAbortState#1 assert abort-state-dropped-only-if-arming-failed: err != nil
 //@   site call setWriteDeadlineArmed#1 assert armed-flag-only-after-arming-succeeded: err == nil
+//@   site call CompareAndSwap#1 assert claiming-the-abort-publishes-the-blocked-bit-only-never-the-deadline-bit: arg2 == (arg1 | udpMuxWriteBlockedBit)
 
 //@ enumerate C13 calls ice.(*UDPMuxDefault).clearWriteAbortState in (*UDPMuxDefault).abortWrite
 //@ enumerate C13 calls ice.(*UDPMuxDefault).clearWriteDeadlineAfterAbort in (*UDPMuxDefault).finishWrite
